@@ -26,6 +26,27 @@ inst!(h_resize_n4 = ob_resize<4, 8>);
 inst!(h_resize_n8 = ob_resize<8, 16>);
 inst!(h_rehash_in_place_n4 = ob_rehash_in_place<4>);
 inst!(h_rehash_in_place_n8 = ob_rehash_in_place<8>);
+inst!(h_clear_n4 = ob_clear<4>);
+inst!(h_clear_n8 = ob_clear<8>);
+inst!(h_clear_n16 = ob_clear<16>);
+inst!(h_iter_fold_n4 = ob_iter_fold<4>);
+inst!(h_iter_fold_n8 = ob_iter_fold<8>);
+inst!(h_iter_fold_n16 = ob_iter_fold<16>);
+inst!(h_drain_n4 = ob_drain<4>);
+inst!(h_drain_n8 = ob_drain<8>);
+inst!(h_drain_n16 = ob_drain<16>);
+inst!(h_clone_n4 = ob_clone<4>);
+inst!(h_clone_n8 = ob_clone<8>);
+inst!(h_clone_n16 = ob_clone<16>);
+inst!(h_get_many2_n4 = ob_get_many2<4>);
+inst!(h_get_many2_n8 = ob_get_many2<8>);
+inst!(h_get_many2_n16 = ob_get_many2<16>);
+inst!(h_iter_hash_n4 = ob_iter_hash<4>);
+inst!(h_iter_hash_n8 = ob_iter_hash<8>);
+inst!(h_iter_hash_n16 = ob_iter_hash<16>);
+inst!(h_replace_bucket_with_n4 = ob_replace_bucket_with<4>);
+inst!(h_replace_bucket_with_n8 = ob_replace_bucket_with<8>);
+inst!(h_replace_bucket_with_n16 = ob_replace_bucket_with<16>);
 inst!(h_iter_n4 = ob_iter<4>);
 inst!(h_iter_n8 = ob_iter<8>);
 inst!(h_iter_n16 = ob_iter<16>);
@@ -199,6 +220,41 @@ mod native_inst {
     ninst!(r_insert_full_load_n16 = ob_insert_full_load<16, 32>);
     ninst!(r_insert_full_load_n32 = ob_insert_full_load<32, 64>);
     ninst!(r_insert_full_load_n64 = ob_insert_full_load<64, 128>);
+    ninst!(r_clear_n4 = ob_clear<4>);
+    ninst!(r_clear_n8 = ob_clear<8>);
+    ninst!(r_clear_n16 = ob_clear<16>);
+    ninst!(r_clear_n32 = ob_clear<32>);
+    ninst!(r_clear_n64 = ob_clear<64>);
+    ninst!(r_iter_fold_n4 = ob_iter_fold<4>);
+    ninst!(r_iter_fold_n8 = ob_iter_fold<8>);
+    ninst!(r_iter_fold_n16 = ob_iter_fold<16>);
+    ninst!(r_iter_fold_n32 = ob_iter_fold<32>);
+    ninst!(r_iter_fold_n64 = ob_iter_fold<64>);
+    ninst!(r_drain_n4 = ob_drain<4>);
+    ninst!(r_drain_n8 = ob_drain<8>);
+    ninst!(r_drain_n16 = ob_drain<16>);
+    ninst!(r_drain_n32 = ob_drain<32>);
+    ninst!(r_drain_n64 = ob_drain<64>);
+    ninst!(r_clone_n4 = ob_clone<4>);
+    ninst!(r_clone_n8 = ob_clone<8>);
+    ninst!(r_clone_n16 = ob_clone<16>);
+    ninst!(r_clone_n32 = ob_clone<32>);
+    ninst!(r_clone_n64 = ob_clone<64>);
+    ninst!(r_get_many2_n4 = ob_get_many2<4>);
+    ninst!(r_get_many2_n8 = ob_get_many2<8>);
+    ninst!(r_get_many2_n16 = ob_get_many2<16>);
+    ninst!(r_get_many2_n32 = ob_get_many2<32>);
+    ninst!(r_get_many2_n64 = ob_get_many2<64>);
+    ninst!(r_iter_hash_n4 = ob_iter_hash<4>);
+    ninst!(r_iter_hash_n8 = ob_iter_hash<8>);
+    ninst!(r_iter_hash_n16 = ob_iter_hash<16>);
+    ninst!(r_iter_hash_n32 = ob_iter_hash<32>);
+    ninst!(r_iter_hash_n64 = ob_iter_hash<64>);
+    ninst!(r_replace_bucket_with_n4 = ob_replace_bucket_with<4>);
+    ninst!(r_replace_bucket_with_n8 = ob_replace_bucket_with<8>);
+    ninst!(r_replace_bucket_with_n16 = ob_replace_bucket_with<16>);
+    ninst!(r_replace_bucket_with_n32 = ob_replace_bucket_with<32>);
+    ninst!(r_replace_bucket_with_n64 = ob_replace_bucket_with<64>);
     ninst!(r_map_lookup_n4 = ob_map_lookup<4>);
     ninst!(r_map_lookup_n8 = ob_map_lookup<8>);
     ninst!(r_map_lookup_n16 = ob_map_lookup<16>);
@@ -262,11 +318,67 @@ harnesses! {
     #[kani::unwind(18)] h_resize_n8,
     #[kani::unwind(6)] h_rehash_in_place_n4,
     #[kani::unwind(10)] h_rehash_in_place_n8,
+    #[kani::unwind(6)] h_clear_n4,
+    #[kani::unwind(10)] h_clear_n8,
+    #[kani::unwind(18)] h_clear_n16,
+    #[kani::unwind(6)] h_iter_fold_n4,
+    #[kani::unwind(10)] h_iter_fold_n8,
+    #[kani::unwind(18)] h_iter_fold_n16,
+    #[kani::unwind(6)] h_drain_n4,
+    #[kani::unwind(10)] h_drain_n8,
+    #[kani::unwind(18)] h_drain_n16,
+    #[kani::unwind(6)] h_clone_n4,
+    #[kani::unwind(10)] h_clone_n8,
+    #[kani::unwind(18)] h_clone_n16,
+    #[kani::unwind(6)] h_get_many2_n4,
+    #[kani::unwind(10)] h_get_many2_n8,
+    #[kani::unwind(18)] h_get_many2_n16,
+    #[kani::unwind(6)] h_iter_hash_n4,
+    #[kani::unwind(10)] h_iter_hash_n8,
+    #[kani::unwind(18)] h_iter_hash_n16,
+    #[kani::unwind(6)] h_replace_bucket_with_n4,
+    #[kani::unwind(10)] h_replace_bucket_with_n8,
+    #[kani::unwind(18)] h_replace_bucket_with_n16,
     #[kani::unwind(6)] h_iter_n4,
     #[kani::unwind(10)] h_iter_n8,
     #[kani::unwind(18)] h_iter_n16,
     }
     native {
+        r_clear_n4,
+        r_clear_n8,
+        r_clear_n16,
+        r_clear_n32,
+        r_clear_n64,
+        r_iter_fold_n4,
+        r_iter_fold_n8,
+        r_iter_fold_n16,
+        r_iter_fold_n32,
+        r_iter_fold_n64,
+        r_drain_n4,
+        r_drain_n8,
+        r_drain_n16,
+        r_drain_n32,
+        r_drain_n64,
+        r_clone_n4,
+        r_clone_n8,
+        r_clone_n16,
+        r_clone_n32,
+        r_clone_n64,
+        r_get_many2_n4,
+        r_get_many2_n8,
+        r_get_many2_n16,
+        r_get_many2_n32,
+        r_get_many2_n64,
+        r_iter_hash_n4,
+        r_iter_hash_n8,
+        r_iter_hash_n16,
+        r_iter_hash_n32,
+        r_iter_hash_n64,
+        r_replace_bucket_with_n4,
+        r_replace_bucket_with_n8,
+        r_replace_bucket_with_n16,
+        r_replace_bucket_with_n32,
+        r_replace_bucket_with_n64,
         r_reserve_n4,
         r_reserve_n8,
         r_reserve_n16,
